@@ -189,8 +189,10 @@ def run(ctx):
     ctx.rule = RULE
     ctx.assumptions += ["integer abscissae; ordinates decodable with denominator <= 64; real p only for p in {1.5, 2.5, 3.5} on perfect-square ordinates",
                         "the integral is recomputed from the OBSERVED critical points (C03/C09 decide whether those are the right function)"]
-    r = tlc.run_tlc("LandscapeNorms", workers=16, constants=dict(MaxY=3, MaxL=3, MaxP=4) if quick else dict(MaxY=4, MaxL=4, MaxP=6), invariants=["Additive", "BranchesAgree", "Trapezoid", "Symmetric"], heap="6g")
-    ctx.model("LandscapeNorms segment identities", r)
+    # (TLC integers are 32-bit: the rational arithmetic of MaxY=4, MaxP>=5 overflows, so the thorough tier trades ordinate range against the exponent)
+    for cst in ([dict(MaxY=3, MaxL=3, MaxP=4)] if quick else [dict(MaxY=4, MaxL=4, MaxP=4), dict(MaxY=5, MaxL=4, MaxP=3), dict(MaxY=3, MaxL=3, MaxP=5), dict(MaxY=2, MaxL=3, MaxP=6), dict(MaxY=6, MaxL=5, MaxP=2)]):
+        r = tlc.run_tlc("LandscapeNorms", workers=16, constants=cst, invariants=["Additive", "BranchesAgree", "Trapezoid", "Symmetric"], heap="6g")
+        ctx.model("LandscapeNorms segment identities %s" % cst, r, constants=cst)
     r = tlc.run_tlc("LandscapeStability", workers=16, constants=dict(MaxT=6, MaxBars=2) if quick else dict(MaxT=8, MaxBars=2), invariants=["Stability"], heap="6g")
     ctx.model("LandscapeStability on the definitions", r)
     rng = ctx.rng
